@@ -89,7 +89,7 @@ def ctok(x) -> int:
 
 
 # ----------------------------------------------------------------------------- values
-def make_values(seed, k, ne, h, w, spikes=False, nans=False, flat=False):
+def make_values(seed, k, ne, h, w, spikes=False, nans=False, flat=False, specials=False):
     """ne grids h x w of pairwise distinct dyadic floats (positions observable); optional spikes / NaNs; `flat` replaces the
     ramp over rows and columns by fine-grained noise around one level (noise + spikes: many pixels sit near the filters' decision
     boundary)"""
@@ -119,7 +119,15 @@ def make_values(seed, k, ne, h, w, spikes=False, nans=False, flat=False):
         for e in range(ne):
             for _ in range(max(1, h * w // 5)):
                 out[e][rng.randrange(h)][rng.randrange(w)] = math.nan
+    if specials:  # infinities, signed zero, the smallest and the largest magnitudes (placement must not care)
+        for e in range(ne):
+            for v in SPECIALS:
+                if rng.random() < 0.6:
+                    out[e][rng.randrange(h)][rng.randrange(w)] = v
     return out
+
+
+SPECIALS = [math.inf, -math.inf, -0.0, 0.0, 5e-324, -2.2250738585072014e-308, 1.7976931348623157e308, -1e300, 1e-7]
 
 
 def txt(v):
@@ -736,7 +744,7 @@ def canon_files(files):
 class C20(Prop):
     id = "C20"
     anchored = ["src/pewlib/__main__.py", "src/pewlib/io/npz.py", "src/pewlib/io/textimage.py", "src/pewlib/process/filters.py"]
-    cases = {"quick": 500, "thorough": 5000}
+    cases = {"quick": 440, "thorough": 5000}
     rule = ("generated command lines of convert / filter / stack over 1..5 inputs written per case (npz, text image with , ; tab "
             "delimiters and .txt/.text/.csv/.TXT names, Agilent batch with each collection method, Thermo iCap CSV in both layouts, "
             "per-line CSV directory generic/Nu with and without x/y columns/TOFWERK), shapes 1x1..7x8 equal and unequal, a quarter of the "
@@ -793,6 +801,8 @@ class C20(Prop):
     def gen_input(self, rng, k, fmt, stem, sub, shape=None, elements=None, spikes=False):
         spec = FORMATS[fmt].gen(rng, k, shape, elements)
         spec.update({"stem": stem, "sub": sub, "seed": rng.randrange(1 << 30), "spikes": spikes})
+        if fmt in ("npz", "txt") and rng.random() < (0.04 if spikes else 0.12):
+            spec["specials"] = True
         return spec
 
     def generate(self, rng, tier):
@@ -806,6 +816,12 @@ class C20(Prop):
         # stack: one pixel count, different shapes; filter: more than 512 / 1024 rows or columns
         eqcount = force["eqcount"] if "eqcount" in force else (cmd == "stack" and rng.random() < 0.25)
         large = force["large"] if "large" in force else (cmd == "filter" and rng.random() < 0.2)
+        # sizes nothing else reaches: many inputs (9..16 small npz / text files named s1 .. s16 in numeric order, where the
+        # lexicographic order differs), and images with more than 256 / 512 / 1024 rows or columns through convert and stack
+        many = force["many"] if "many" in force else ("n" not in force and not eqcount and not large and rng.random() < 0.02)
+        long_img = force["long"] if "long" in force else (cmd != "filter" and not eqcount and not many and rng.random() < 0.03)
+        if many:
+            n = rng.choice([9, 11, 12, 16])
         if eqcount and n < 2:
             n = rng.choice([2, 2, 3, 3, 4])
         if large:
@@ -815,7 +831,10 @@ class C20(Prop):
         heavy = 0.12 if tier == "quick" else 0.3  # csvdir spawns a process pool per load
         weights = {"npz": 4, "txt": 3, "agilent": 2, "thermo": 2, "csvdir": 8 * heavy}
         pool = [f for f in names for _ in range(max(1, int(10 * weights[f])))]
-        stems = rng.sample(["a", "b", "img", "scan1", "x.v2", "line_3", "Sample", "t0", "q", "a.b.1", "x y", "UP.per", "\u00fc1"], n)
+        if many:
+            stems = [f"s{i + 1}" for i in range(n)]
+        else:
+            stems = rng.sample(["a", "b", "img", "scan1", "x.v2", "line_3", "Sample", "t0", "q", "a.b.1", "x y", "UP.per", "\u00fc1"], n)
         subs = [rng.choice(["", "", "in1", "in2"]) for _ in range(n)]
         # two inputs with one stem: in different directories (their outputs coincide inside an output directory, not beside the
         # inputs), or in one directory under different suffixes (their outputs coincide whenever they are derived)
@@ -833,13 +852,21 @@ class C20(Prop):
         if cmd == "stack":
             # one element list for all inputs: text images (always `_element_`) or npz files with the same names
             kind = force.get("stack_fmt", rng.choice(["npz", "npz", "npz", "txt", "txt", "mixed", "mixed", "any_text"]))
-            els = rng.sample(NPZ_ELEMENTS, rng.choice([1, 2, 2, 3]))
+            if (many or long_img) and "stack_fmt" not in force:
+                kind = rng.choice(["npz", "txt", "any_text"])
+            els = rng.sample(NPZ_ELEMENTS, rng.choice([1, 2, 2, 3]) if not (many or long_img) else 1)
             if kind == "any_text":  # text images and npz files with the one element `_element_`, in any order
                 els = ["_element_"]
             first = None
             eq_shapes = equal_count_shapes(rng, n, 2 if kind == "mixed" else 1) if eqcount else None
+            long_at = rng.randrange(n) if long_img else None
             for k in range(n):
                 sh = eq_shapes[k] if eqcount else shape if (equal and shape) else None
+                if many:
+                    sh = (rng.choice([1, 1, 2, 3]), rng.choice([1, 2, 2, 3]))
+                if k == long_at:
+                    sh = (rng.choice([257, 513, 600, 1025]), rng.choice([1, 2, 3]))
+                    sh = sh if rng.random() < 0.5 else (sh[1], sh[0])
                 if kind == "txt":
                     fmt, e = "txt", None
                 elif kind == "any_text":
@@ -858,13 +885,15 @@ class C20(Prop):
         else:
             share = rng.random() < 0.5  # npz inputs share (some) element names so that --elements subsets are interesting
             els = rng.sample(NPZ_ELEMENTS, rng.choice([2, 3, 4]))
-            big_at = rng.randrange(n) if large else None  # the other inputs of a `large` case are ordinary ones
+            big_at = rng.randrange(n) if (large or long_img) else None  # the other inputs of a `large` case are ordinary ones
             for k in range(n):
-                fmt = force.get("fmt") or rng.choice(pool)
+                fmt = force.get("fmt") or rng.choice(pool if not many else ["npz", "npz", "txt"])
                 e = None
                 if fmt == "npz" and share:
                     e = [x for x in els if rng.random() < 0.7] or els[:1]
                 sh = shape if (equal and shape) else None
+                if many:
+                    sh = (rng.choice([1, 1, 2, 3]), rng.choice([1, 2, 2, 3]))
                 flat = False
                 if k == big_at:  # cheap writers only; a few elements
                     fmt = force.get("fmt") or rng.choice(["npz", "npz", "txt"])
@@ -938,7 +967,8 @@ class C20(Prop):
                 inputs[rng.choice([x for x in range(n) if x not in (i, j)])] = dict(inputs[i])
         # ---- dispatch classes of `load`: one input of about a seventh of the command lines is not an ordinary one
         # force["odd"]: False | True | {"fmt": "perkin" | "emptydir"} | {"fields": {...}} (replace / patch input 0)
-        odd = force["odd"] if "odd" in force else (rng.random() < (0.16 if cmd != "stack" else 0.06) and not large and not eqcount)
+        odd = force["odd"] if "odd" in force else (rng.random() < (0.16 if cmd != "stack" else 0.06) and not large and not eqcount
+                                                  and not many and not long_img)
         if isinstance(odd, dict):
             s0 = inputs[0]
             if "fmt" in odd:
@@ -1088,6 +1118,40 @@ class C20(Prop):
             case = self.build(rng, "quick", "stack", n=n, okind="file", format=".npz", mode="inproc", stack_fmt=["npz", "txt"][j % 2],
                               eqcount=False, odd=False, dup=True, missing_input=False, calibrate=False)
             yield {**case, "orientation": orient}
+        # filter: the ends of the parameter ranges (window 1, windows larger than the image, negative / tiny / huge thresholds) on
+        # an image with spikes, and elements stored in single precision / big-endian / half precision (the library filters
+        # compute in the element's own type)
+        ext = [("mean", 1, 0.5), ("median", 1, 0.5), ("mean", 3, -1.0), ("median", 5, -1.0), ("mean", 9, 0.001), ("median", 11, 1e9),
+               ("mean", 15, 10.0), ("median", 3, 0.001), ("mean", 3, -0.5)]
+        for j, (ftype, size, thr) in enumerate(ext):
+            rng = random.Random(f"C20-targeted-filter-ends-{j}")
+            case = self.build(rng, "quick", "filter", n=1 + j % 2, okind=["dir", "omitted"][j % 2], format=".npz", mode="inproc", fmt="npz",
+                              eqcount=False, large=False, odd=False, dup=False, missing_input=False, many=False, elements=None,
+                              dtypes=[None, None])
+            for s_ in case["inputs"]:
+                s_.update({"h": 6, "w": 7, "nans": False})
+                s_.pop("specials", None)
+            yield {**case, "filter": {"type": ftype, "size": size, "threshold": thr}}
+        for j, (dt, ftype, size, thr) in enumerate([("f4", "mean", 3, 1.0), ("f4", "median", 5, 0.5), (">f4", "mean", 5, 0.5), ("f2", "median", 3, 1.0),
+                                                    (["f4", "f8"], "mean", 3, 0.5), (">f8", "median", 3, 0.5), ("f4", "mean", 7, 1.5)]):
+            rng = random.Random(f"C20-targeted-filter-types-{j}")
+            case = self.build(rng, "quick", "filter", n=1, okind="dir", format=[".npz", ".csv"][j % 2], mode="inproc", fmt="npz",
+                              eqcount=False, large=False, odd=False, dup=False, missing_input=False, many=False, elements=None, dtypes=[dt])
+            case["inputs"][0].update({"h": 8, "w": 9, "nans": False, "elements": ["A", "Fe56"]})
+            case["inputs"][0].pop("specials", None)
+            case["inputs"][0].pop("calibration", None)
+            yield {**case, "filter": {"type": ftype, "size": size, "threshold": thr}}
+        # many inputs (names whose lexicographic order is not the numeric one), long images through convert and stack
+        for j, cmd in enumerate(["convert", "filter", "stack", "stack"]):
+            rng = random.Random(f"C20-targeted-many-{j}")
+            case = self.build(rng, "quick", cmd, many=True, okind="file" if cmd == "stack" else "dir", format=[".npz", ".csv"][j % 2],
+                              mode="inproc", eqcount=False, large=False, odd=False, missing_input=False, calibrate=False, long=False)
+            yield case
+        for j, cmd in enumerate(["convert", "stack", "stack", "convert"]):
+            rng = random.Random(f"C20-targeted-long-{j}")
+            yield self.build(rng, "quick", cmd, long=True, many=False, okind="file" if cmd == "stack" else "dir",
+                             format=[".npz", ".csv", ".npz", ".vtk"][j], mode="inproc", eqcount=False, large=False, odd=False,
+                             missing_input=False, calibrate=False, **({"n": 2} if cmd == "stack" else {}))
         # convert / filter: one input named twice (three times); every copy is processed on its own
         dup_cases = [("filter", 2, "npz", "dir", ".npz", "inproc"), ("filter", 2, "npz", "omitted", ".npz", "subproc"),
                      ("filter", 2, "txt", "dir", ".csv", "inproc"), ("filter", 3, "npz", "omitted", ".npz", "inproc"),
@@ -1360,7 +1424,9 @@ class C20(Prop):
                 continue
             (root / rel).parent.mkdir(parents=True, exist_ok=True)
             vals = make_values(spec["seed"], k, len(spec["elements"]), spec["h"], spec["w"], spec["spikes"], spec["nans"],
-                               spec.get("flat", False))
+                               spec.get("flat", False), bool(spec.get("specials")) and spec["fmt"] in ("npz", "txt"))
+            if spec.get("specials") and spec["fmt"] in ("npz", "txt"):
+                feats.add("special-values")
             fmt.write(root / rel, spec, vals)
             rels.append(rel)
             feats.add("in:" + spec["fmt"])
@@ -1611,6 +1677,10 @@ class C20(Prop):
             feats.add("calibrate")
         n = len(inputs)
         feats.add("n1" if n == 1 else "n2" if n == 2 else "n>=3")
+        if n >= 9:
+            feats.add("n>=9")
+        if cmd != "filter" and any(max(s["h"], s["w"]) > 256 for s in inputs):
+            feats.add(f"{cmd}:long-image")
         shapes = {(s["h"], s["w"]) for s in inputs}
         if n > 1:
             feats.add("equal-shapes" if len(shapes) == 1 else "unequal-shapes")
